@@ -1734,7 +1734,9 @@ def vec_method(it, obj, name, args, kw):
         for bound in (lo, hi):
             ai.label_hazard(obj, bound, "clip")
         los, his = bcast(lo, len(obj.v)), bcast(hi, len(obj.v))
-        return Vec((ai.CTX.per_class(i, clip, x, l, h) for i, (x, l, h) in enumerate(zip(obj.v, los, his))), fresh=obj.fresh, aligned=obj.aligned)
+        r = Vec((ai.CTX.per_class(i, clip, x, l, h) for i, (x, l, h) in enumerate(zip(obj.v, los, his))), fresh=obj.fresh, aligned=obj.aligned)
+        r.exact, r.labels = obj.exact, obj.labels            # element-wise: the same rows under the same labels
+        return r
     if name == "replace":
         if len(args) == 2:
             return lift1(lambda x: args[1] if (not is_nan(x) and not isinstance(x, Opaque) and _eq(x, args[0])) else x, obj)
@@ -1862,28 +1864,35 @@ def vec_method(it, obj, name, args, kw):
             acc = x if acc is None else {"cumsum": acc + x, "cummax": max(acc, x), "cummin": min(acc, x)}[name]
             out.append(acc)
         r = Vec(out, fresh=obj.fresh, aligned=obj.aligned)
-        r.exact = True
+        r.exact, r.labels = True, obj.labels
         return r
-    if name == "sort_values" and not args and set(kw) <= {"kind", "ascending"} and kw.get("ascending", True) is True and obj.v \
+    if name == "sort_index" and not args and not kw and obj.labels is not None and len(obj.labels) == len(obj.v) and all(isinstance(l, int) and not isinstance(l, bool) for l in obj.labels):
+        order = sorted(range(len(obj.v)), key=lambda i: obj.labels[i])           # stable: rows back in the order of their labels
+        r = Vec([obj.v[i] for i in order], aligned=(obj.aligned or "any"))
+        r.exact, r.labels = obj.exact, [obj.labels[i] for i in order]
+        return r
+    if name == "sort_values" and not args and set(kw) <= {"kind", "ascending"} and kw.get("ascending", True) in (True, False) and obj.v \
+            and (kw.get("ascending", True) is True or kw.get("kind") in ("stable", "mergesort") or len({repr(x) for x in obj.v}) == len(obj.v)) \
             and (obj.labels is not None or obj.aligned is True or obj.fresh):
         # a literal Series of mutually comparable values under literal labels: stable sort, every value keeps its label
         def plain(x):
-            return isinstance(x, (str, int, Fr)) and not isinstance(x, bool) or (isinstance(x, tuple) and all(plain(y) for y in x))
-        vals = [int(T(x).cval()) if isinstance(x, Term) and x.is_const() and x.cval().denominator == 1 else x for x in obj.v]
+            return (isinstance(x, (str, int, Fr)) and not isinstance(x, bool)) or (isinstance(x, float) and x == x) or (isinstance(x, tuple) and all(plain(y) for y in x))
+        vals = [(int(x.cval()) if x.cval().denominator == 1 else x.cval()) if isinstance(x, Term) and x.is_const() else x for x in obj.v]
         if all(plain(x) for x in vals):
             labels = list(obj.labels) if obj.labels is not None else list(range(len(vals)))
             try:
-                order = sorted(range(len(vals)), key=lambda i: vals[i])
+                order = sorted(range(len(vals)), key=lambda i: vals[i], reverse=kw.get("ascending", True) is False)          # (stable in either direction)
             except TypeError:
                 order = None
             if order is not None:
                 r = Vec([obj.v[i] for i in order], aligned="any")
                 r.exact, r.labels = True, [labels[i] for i in order]
                 return r
-    if name == "argsort" and not args and obj.exact and obj.v and not (obj.aligned or obj.fresh) and kw.get("kind") in ("stable", "mergesort"):
-        # ndarray.argsort with a stable kind on literal, mutually comparable values: the positions in sorted order (ties in input order)
+    if name == "argsort" and not args and obj.exact and obj.v and not (obj.aligned or obj.fresh):
+        # ndarray.argsort on literal, mutually comparable values: the positions in sorted order -- with a stable kind ties keep input order; with the default kind the
+        # order of ties is unspecified, so only tie-free data is decided
         lv = _lits(obj.v) if not all(isinstance(x, str) for x in obj.v) else list(obj.v)
-        if lv is not None and set(kw) <= {"kind"}:
+        if lv is not None and set(kw) <= {"kind"} and (kw.get("kind") in ("stable", "mergesort") or len(set(lv)) == len(lv)):
             r = Vec(sorted(range(len(lv)), key=lambda i: lv[i]))
             r.exact = True
             return r
@@ -2217,6 +2226,21 @@ def ext_call(it, dotted, args, kw):
             r.exact = True
             return r
         return Opaque(name)
+    if name == "np.arange" and len(args) in (2, 3) and not kw and all(isinstance(a_, int) and not isinstance(a_, bool) for a_ in args) and (len(args) == 2 or args[2] != 0):
+        r = Vec(list(range(*args)))                          # literal bounds (and step)
+        r.exact = True
+        return r
+    if name == "np.minimum.accumulate" and len(args) == 1 and not kw and isinstance(args[0], Vec):
+        lv = _lits(args[0].v) if args[0].v else []
+        if lv is None:
+            raise Undecided("np.minimum.accumulate of values that are not literal")
+        out_, cur_ = [], None
+        for x_ in lv:
+            cur_ = x_ if cur_ is None or x_ < cur_ else cur_
+            out_.append(cur_)
+        r = Vec(out_, fresh=args[0].fresh, aligned=args[0].aligned)
+        r.exact, r.labels = args[0].exact, args[0].labels
+        return r
     if name == "np.arange" and len(args) == 1 and isinstance(args[0], int) and not isinstance(args[0], bool):
         r = Vec(list(range(args[0])))
         r.exact = True
